@@ -9,7 +9,7 @@
     rne53_is_round_ties_even shows that function is what its name says. *)
 From Coq Require Import ZArith String List Bool.
 From V.C04 Require Import Int64 NumBase.
-From V.C16 Require Import ModelBase GenCoerce ModelCoerce ProofsRound Proofs.
+From V.C16 Require Import ModelBase GenCoerce ModelCoerce ProofsRound Proofs ProofsGeneric.
 Import ListNotations.
 Open Scope string_scope.
 
@@ -118,3 +118,42 @@ Proof.
   split; [apply rne53_opp | apply rne53_bound].
 Qed.
 Print Assumptions rne53_is_round_ties_even.
+
+(* one type variable T meeting several expressions — a tuple literal against tuple[T,...,T]
+   (visit_Tuple), the arguments of f(a: T, b: T, ...) / a generic struct constructor
+   (type_check_args): with the loops as GENERATED (do they apply the substitution found so far?),
+   for element lists of ANY length, acceptance means T is the expected type and EVERY expression
+   was individually accepted by check_type_against at T (so equal or a widening, each with its own
+   conversion ops — coerce_value applies to each) *)
+Theorem generic_positions_no_narrowing : forall elts ret t cs,
+  generic_outcome gen_tuple_elems_substituted elts ret = GAccept t cs \/
+  generic_outcome gen_args_substituted elts ret = GAccept t cs ->
+  t = ret /\ Forall2 (fun a c => check_type_against a ret = Accept c /\ (a = ret \/ widens a ret)) elts cs.
+Proof. intros elts ret t cs [H | H]; exact (generic_sound elts ret t cs H). Qed.
+Print Assumptions generic_positions_no_narrowing.
+Example generic_instances :
+  generic_outcome gen_tuple_elems_substituted [TInt; TNat] TInt = GAccept TInt [[]; []] /\
+  generic_outcome gen_tuple_elems_substituted [TFloat; TNat; TInt] TFloat
+    = GAccept TFloat [[]; [HOp "arithmetic.conversions" "convert_u"]; [HOp "arithmetic.conversions" "convert_s"]] /\
+  generic_outcome gen_args_substituted [TInt; TNat] TNat = GReject /\
+  generic_outcome gen_args_substituted [TNat; TInt] TInt = GReject /\
+  (* a loop that forgets the substitution would accept the narrowing: *)
+  generic_outcome false [TInt; TNat] TNat = GAccept TNat [[]; []].
+Proof. vm_compute. repeat split. Qed.
+
+(* several coercions in one block (x1: E1 = x0; x2: E2 = x1; ...), any length: every step is its
+   own check_type_against (equal or a widening) and the ops applied to the value are the
+   concatenation of the steps' own ops, executed in order *)
+Theorem multi_use_per_step : forall src path c,
+  path_outcome src path = Accept c ->
+  (exists cs, Forall2 (fun st c' => check_type_against (fst st) (snd st) = Accept c' /\
+                                    (fst st = snd st \/ widens (fst st) (snd st))) (steps src path) cs /\
+              c = concat cs) /\
+  (forall c1 c2 v, run (c1 ++ c2) v = match run c1 v with Some v' => run c2 v' | None => None end).
+Proof. intros src path c H. split; [exact (path_per_step path src c H) | intros; apply run_app]. Qed.
+Print Assumptions multi_use_per_step.
+Example multi_use_instance :
+  path_outcome TNat [TInt; TFloat] = Accept [HOp "arithmetic.conversions" "convert_s"] /\
+  path_outcome TNat [TFloat; TFloat] = Accept [HOp "arithmetic.conversions" "convert_u"] /\
+  path_outcome TNat [TInt; TNat] = Reject.
+Proof. vm_compute. repeat split. Qed.
